@@ -69,6 +69,13 @@ impl Report {
         }
     }
     pub fn violation(&mut self, sig: &str, what: &str, case: &str, detail: J) {
+        // the model runtime met a standard procedure it does not implement: undecided, not violated
+        if sig.contains("model-lacks") {
+            if self.inconclusive.len() < 5 {
+                self.inconclusive.push(format!("{} ({})", what.chars().take(200).collect::<String>(), case));
+            }
+            return;
+        }
         let c = self.violation_counts.entry(sig.to_string()).or_insert(0);
         *c += 1;
         if *c <= MAX_VIOLATIONS_PER_SIG {
